@@ -29,11 +29,33 @@ specfunc so_but_dirty(a SObj, b SObj) bool = so_fixed(a, b) && a.account == b.ac
 specfunc so_but_origin(a SObj, b SObj) bool = so_fixed(a, b) && a.account == b.account && a.code == b.code && a.dirtyStorage == b.dirtyStorage && a.dirtyCode == b.dirtyCode && a.suicided == b.suicided
 specfunc so_but_storage(a SObj, b SObj) bool = so_fixed(a, b) && a.account == b.account && a.code == b.code && a.dirtyCode == b.dirtyCode && a.suicided == b.suicided
 
+// ---- keeper-side contract storage (C05, storage write-back of Commit): evm_store[a][k] is the value of slot k of contract a
+// in the keeper's KV store, as read by Keeper.GetState (a missing entry reads as the zero hash, and SetState with the 32
+// bytes of the zero hash stores 32 zero bytes, which read back as the zero hash).
+alias Hash32 github.com/ethereum/go-ethereum/common.Hash
+alias Stor github.com/haqq-network/haqq/x/evm/statedb.Storage
+sort Slots = (Array Hash32 Hash32)
+sort EvmStore = (Array Addr20 Slots)
+world evm_store EvmStore
+
+// What the storage caches of one cached object mean (representation invariant; row = the keeper's slots of the object's address):
+//   a slot present in transientStorage (written back by an earlier Commit of this transaction) has that value in the store,
+//   otherwise a slot present in originStorage (loaded by GetCommittedState) has the loaded value in the store.
+specfunc so_synced(o SObj, row Slots) bool = forall k Hash32 :: (has(o.transientStorage, k) ==> row[k] == o.transientStorage[k]) && (!has(o.transientStorage, k) && has(o.originStorage, k) ==> row[k] == o.originStorage[k])
+// every dirty slot has been loaded or written back before (SetState reads the slot through GetState first)
+specfunc so_covered(o SObj) bool = forall k Hash32 :: has(o.dirtyStorage, k) ==> has(o.originStorage, k) || has(o.transientStorage, k)
+// the store holds the dirty value of every dirty slot, all other slots are as in row0
+specfunc so_flushed(o SObj, row Slots, row0 Slots) bool = forall k Hash32 :: ite(has(o.dirtyStorage, k), row[k] == o.dirtyStorage[k], row[k] == row0[k])
+// the transient cache after the write-back: grown by dirty slots only, and only with their dirty values
+specfunc so_transient_step(o SObj, o0 SObj) bool = forall k Hash32 :: (has(o0.transientStorage, k) ==> has(o.transientStorage, k))
+        && (has(o.transientStorage, k) && !(has(o0.transientStorage, k) && o.transientStorage[k] == o0.transientStorage[k]) ==> has(o0.dirtyStorage, k) && o.transientStorage[k] == o0.dirtyStorage[k])
+specfunc so_but_transient(a SObj, b SObj) bool = a.db == b.db && a.address == b.address && a.account == b.account && a.code == b.code && a.originStorage == b.originStorage && a.dirtyStorage == b.dirtyStorage && a.dirtyCode == b.dirtyCode && a.suicided == b.suicided
+
 // ---- the keeper behind the StateDB (interface statedb.Keeper): reads do not change anything
 func (Keeper).GetAccount
     ensures true
 func (Keeper).GetState
-    ensures true
+    ensures result == evm_store[addr][key]
 func (Keeper).GetCode
     ensures true
 
@@ -285,12 +307,17 @@ func (*stateObject).GetCommittedState
     modifies *s
     ensures cached: has(old(s.originStorage), key) ==> result == old(s.originStorage)[key] && *s == old(*s)
     ensures loaded: !has(old(s.originStorage), key) ==> s.originStorage == mapput(old(s.originStorage), key, result) && so_but_origin(*s, old(*s))
+    // the caches keep their meaning w.r.t. the keeper's store (representation invariant of Commit, see so_synced below)
+    ensures c05_synced: old(so_synced(*s, evm_store[s.address])) ==> so_synced(*s, evm_store[s.address])
+    ensures c05_covered: old(so_covered(*s)) ==> so_covered(*s)
 func (*stateObject).GetState
     requires nonnil: s != nil && s.db != nil && s.db.keeper != nil
     modifies *s
     ensures dirty: has(old(s.dirtyStorage), key) ==> result == old(s.dirtyStorage)[key] && *s == old(*s)
     ensures clean: !has(old(s.dirtyStorage), key) ==> result == s.originStorage[key] && has(s.originStorage, key) && so_but_origin(*s, old(*s))
             && (has(old(s.originStorage), key) ==> *s == old(*s))
+    ensures c05_synced: old(so_synced(*s, evm_store[s.address])) ==> so_synced(*s, evm_store[s.address])
+    ensures c05_covered: old(so_covered(*s)) ==> so_covered(*s)
 
 func (*stateObject).SetCode
     let j = s.db.journal
@@ -319,6 +346,8 @@ func (*stateObject).SetState
     ensures entry: prev != value ==> typeis(j.entries[n], EStorage) && e.account != nil && *e.account == s.address && e.key == key && e.prevalue == prev
     ensures dirty: prev != value ==> j.dirties == mapput(old(j.dirties), s.address, old(j.dirties)[s.address] + 1)
     ensures set: prev != value ==> s.dirtyStorage == mapput(old(s.dirtyStorage), key, value) && so_but_storage(*s, old(*s))
+    ensures c05_synced: old(so_synced(*s, evm_store[s.address])) ==> so_synced(*s, evm_store[s.address])
+    ensures c05_covered: old(so_covered(*s)) ==> so_covered(*s)
 
 func (*StateDB).AddLog
     let j = s.journal
@@ -434,6 +463,12 @@ func (*journal).Revert
     // for every address a: its dirty counter went down by the number of reverted entries that had marked it (j.dirties[a] is
     // Go's lookup: 0 when the key is absent - a counter that reaches 0 is deleted)
     ensures counters: j.dirties[a] == old(j.dirties)[a] - ndirty_dn(old(j.entries), snapshot, n, a)
+    // C05 / C02: every stateful precompile's Run flushes the StateDB into the store in the middle of the transaction
+    // (stateDB.Commit()), so the store may already hold values written inside the frame that is being reverted; the final Commit
+    // writes back journal-dirty addresses only. For the reverted frame to leave no trace an address that was dirty must therefore
+    // stay scheduled for write-back. FINDING F13: the counter of an address whose entries all lie in the reverted range reaches 0
+    // and the address is dropped: the flushed in-frame balance / nonce / storage survives (and coins are minted for its peer)
+    ensures c05_stays_tracked: old(j.dirties)[a] > 0 ==> j.dirties[a] > 0
 
 // Snapshot: ids are handed out strictly increasing; the revision remembers the current journal length
 func (*StateDB).Snapshot
@@ -479,38 +514,81 @@ func (*StateDB).RevertToSnapshot
 // balance) the supply moves by the sum over the dirty addresses of (cached - bank): a Cosmos-side change of a dirty
 // account's bank balance made during the transaction is overwritten (finding F-C02 in REPORT).
 
-// ASSUMED (the body ranges over a map, which the engine does not support): the returned addresses are dirty ones.
+// ASSUMED (the bodies range over a Go map, which the engine does not support): the result lists every key of the map exactly
+// once - idx_addr / idx_slot are the (Skolem) positions.
+uf idx_addr(j Jrnl, a Addr20) int
+uf idx_slot(m Stor, k Hash32) int
 func (*journal).sortedDirties
     trusted
-    ensures forall k int :: 0 <= k && k < len(result) ==> has(j.dirties, result[k])
+    ensures keys: forall k int :: 0 <= k && k < len(result) ==> has(j.dirties, result[k])
+    ensures once: forall k int, m int :: 0 <= k && k < m && m < len(result) ==> result[k] != result[m]
+    ensures all: forall a Addr20 :: has(j.dirties, a) ==> 0 <= idx_addr(*j, a) && idx_addr(*j, a) < len(result) && result[idx_addr(*j, a)] == a
 func (Storage).SortedKeys
     trusted
-    ensures len(result) >= 0
+    ensures keys: forall k int :: 0 <= k && k < len(result) ==> has(s, result[k])
+    ensures once: forall k int, m int :: 0 <= k && k < m && m < len(result) ==> result[k] != result[m]
+    ensures all: forall h Hash32 :: has(s, h) ==> 0 <= idx_slot(s, h) && idx_slot(s, h) < len(result) && result[idx_slot(s, h)] == h
 
-// keeper writes: only x/bank state may change (contracts of the implementation: x/evm/keeper, config C02)
+// keeper writes (interface statedb.Keeper; the implementation is x/evm/keeper): SetAccount / SetCode do not touch contract
+// storage; SetState writes exactly one slot; DeleteAccount may only change the slots of the deleted account (it clears them)
 func (Keeper).SetAccount
     modifies bank_bal, bank_supply
     ensures true
 func (Keeper).DeleteAccount
-    modifies bank_bal, bank_supply
-    ensures true
+    modifies bank_bal, bank_supply, evm_store
+    ensures others: forall a Addr20 :: a != addr ==> evm_store[a] == old(evm_store)[a]
 func (Keeper).SetState
-    ensures true
+    modifies evm_store
+    ensures written: evm_store == upd(old(evm_store), addr, upd(old(evm_store)[addr], key, bytes_to_hash(value)))
 func (Keeper).SetCode
     ensures true
 
+// Commit: (C02) every journal-dirty account is written back with its CACHED record; (C05) after a successful Commit every dirty
+// storage slot of every dirty, not self-destructed account is in the keeper's store with its dirty value, no other slot of such
+// an account and no slot of a non-dirty account has changed, the cached objects changed only in their transient caches, and the
+// caches still mean what they meant (so_synced) - which is what makes the skip of "noop" slots correct in the next Commit.
 func (*StateDB).Commit
+    let D = s.journal.dirties
+    let addrs = ret(sortedDirties, 1, 0)
+    let keys = ret(SortedKeys, 1, 0)
+    let oi = rangeindex$1
     requires nonnil: s != nil && s.journal != nil && s.keeper != nil
     requires cached: forall a Addr20 :: has(s.journal.dirties, a) ==> s.stateObjects[a] != nil && s.stateObjects[a].address == a
-    modifies bank_bal, bank_supply
+    requires synced: forall a Addr20 :: has(s.journal.dirties, a) ==> so_synced(*s.stateObjects[a], evm_store[a]) && so_covered(*s.stateObjects[a])
+    modifies bank_bal, bank_supply, evm_store
     allow frame
-    loop 1 invariant idx: 0 <= #i
-    loop 1 invariant ident: forall a Addr20 :: has(s.journal.dirties, a) ==> s.stateObjects[a] != nil && s.stateObjects[a].address == a
-    loop 2 invariant idx: 0 <= #i
-    loop 2 invariant ident: forall a Addr20 :: has(s.journal.dirties, a) ==> s.stateObjects[a] != nil && s.stateObjects[a].address == a
-    loop 2 invariant obj: obj != nil && obj == s.stateObjects[addr] && has(s.journal.dirties, addr) && !obj.suicided
+    loop 1 invariant idx: 0 <= #i && #i <= len(addrs)
+    loop 1 invariant ident: forall a Addr20 :: has(D, a) ==> s.stateObjects[a] != nil && s.stateObjects[a].address == a
+    loop 1 invariant caches: forall a Addr20 :: has(D, a) ==> so_but_transient(*s.stateObjects[a], old(*s.stateObjects[a]))
+    loop 1 invariant done: forall j int :: 0 <= j && j < #i && !s.stateObjects[addrs[j]].suicided ==>
+            so_flushed(*s.stateObjects[addrs[j]], evm_store[addrs[j]], old(evm_store)[addrs[j]]) && so_synced(*s.stateObjects[addrs[j]], evm_store[addrs[j]])
+            && so_transient_step(*s.stateObjects[addrs[j]], old(*s.stateObjects[addrs[j]]))
+    loop 1 invariant todo: forall j int :: #i <= j && j < len(addrs) ==> evm_store[addrs[j]] == old(evm_store)[addrs[j]] && *s.stateObjects[addrs[j]] == old(*s.stateObjects[addrs[j]])
+    loop 1 invariant others: forall a Addr20 :: !has(D, a) ==> evm_store[a] == old(evm_store)[a]
+    loop 2 invariant idx: 0 <= #i && #i <= len(keys) && 0 <= oi && oi < len(addrs) && addrs[oi] == addr
+    loop 2 invariant ident: forall a Addr20 :: has(D, a) ==> s.stateObjects[a] != nil && s.stateObjects[a].address == a
+    loop 2 invariant obj: obj != nil && obj == s.stateObjects[addr] && has(D, addr) && !obj.suicided
+    loop 2 invariant caches: forall a Addr20 :: has(D, a) ==> so_but_transient(*s.stateObjects[a], old(*s.stateObjects[a]))
+    loop 2 invariant done: forall j int :: 0 <= j && j < oi && !s.stateObjects[addrs[j]].suicided ==>
+            so_flushed(*s.stateObjects[addrs[j]], evm_store[addrs[j]], old(evm_store)[addrs[j]]) && so_synced(*s.stateObjects[addrs[j]], evm_store[addrs[j]])
+            && so_transient_step(*s.stateObjects[addrs[j]], old(*s.stateObjects[addrs[j]]))
+    loop 2 invariant todo: forall j int :: oi < j && j < len(addrs) ==> evm_store[addrs[j]] == old(evm_store)[addrs[j]] && *s.stateObjects[addrs[j]] == old(*s.stateObjects[addrs[j]])
+    loop 2 invariant others: forall a Addr20 :: !has(D, a) ==> evm_store[a] == old(evm_store)[a]
+    // the object being written back: slots already visited hold their dirty value, all other slots are untouched, and the
+    // caches still describe the store
+    loop 2 invariant slots: forall m int :: 0 <= m && m < #i ==> evm_store[addr][keys[m]] == obj.dirtyStorage[keys[m]]
+    loop 2 invariant rest: forall h Hash32 :: !has(obj.dirtyStorage, h) ==> evm_store[addr][h] == old(evm_store)[addr][h]
+    loop 2 invariant synced: so_synced(*obj, evm_store[addr]) && so_covered(*obj)
+    loop 2 invariant step: so_transient_step(*obj, oldheap(*obj))
     // every write-back is for a dirty address, of a live (not self-destructed) cached object, with that object's cached record
     call SetAccount requires cachedrecord: has(s.journal.dirties, obj.address) && !obj.suicided && account == obj.account && addr == obj.address
     call DeleteAccount requires suicided: has(s.journal.dirties, obj.address) && obj.suicided && addr == obj.address
-    ensures true
+    // a storage write is for a dirty slot of that object, with its dirty value
+    call SetState requires dirtyslot: addr == obj.address && has(obj.dirtyStorage, key) && bytes_to_hash(value) == obj.dirtyStorage[key]
+    // ... and only if the store does not hold that value already ("noop changes" are skipped)
+    call SetState requires notnoop: evm_store[addr][key] != obj.dirtyStorage[key]
+    ensures c05_flushed: result == nil ==> (forall a Addr20 :: has(D, a) && !s.stateObjects[a].suicided ==> so_flushed(*s.stateObjects[a], evm_store[a], old(evm_store)[a]))
+    ensures c05_synced: result == nil ==> (forall a Addr20 :: has(D, a) && !s.stateObjects[a].suicided ==> so_synced(*s.stateObjects[a], evm_store[a]) && so_transient_step(*s.stateObjects[a], old(*s.stateObjects[a])))
+    ensures c05_others: forall a Addr20 :: !has(D, a) ==> evm_store[a] == old(evm_store)[a]
+    ensures c05_caches: *s == old(*s) && *s.journal == old(*s.journal) && (forall a Addr20 :: has(D, a) ==> so_but_transient(*s.stateObjects[a], old(*s.stateObjects[a])))
 @*/
